@@ -606,7 +606,7 @@ fn execute_all(cases: Vec<Planned>, bins: Arc<Binaries>, jobs: usize, keep_every
             match r {
                 Ok((mut obs, real_case)) => {
                     let verdict = judge(&real_case, &obs);
-                    let n_records = obs.log.len();
+                    let n_records = obs.records;
                     // keep memory bounded on large batches: the full call log is only needed for the
                     // determinism sample (every 40th case), for samples and for violations
                     let sane = obs.started && (obs.stdout_pipe == obs.stdout_accepted || obs.timed_out);
